@@ -14,7 +14,7 @@
       * the few comprehension shapes of [_get_dim] ([PWrapNeg], [PAllNonneg], [PComplement]) matched verbatim.
     Ill-typed programs are [SStuck] (never an implementation outcome; never equal to a model outcome). *)
 From Coq Require Import List NArith ZArith Bool Arith QArith String.
-From Leaspy Require Import Base.Atoms Masked.Weighted.
+From Leaspy Require Import Base.Atoms Masked.Weighted Masked.Pipeline.
 Import ListNotations.
 Local Close Scope Q_scope.
 Local Open Scope nat_scope.
@@ -66,7 +66,9 @@ Inductive sval : Type :=
 | VIdx (idx : list (list Z))
 | VVals (l : list atom)
 | VKws (dim : list Z)                (* **kws of the torch sum: dim=... ([] = no dim) *)
-| VSqrtOf (t : tensor atom).         (* t.sqrt(), kept symbolic: atoms are rationals *)
+| VSqrtOf (t : tensor atom)          (* t.sqrt(), kept symbolic: atoms are rationals *)
+| VStr (s : string)
+| VDict (l : list (string * sval)).  (* state: a mapping with constant string keys *)
 
 Definition sval_of_operand (x : operand) : sval :=
   match x with OW t => VWT t | OT v => VTen v end.
@@ -123,13 +125,17 @@ Inductive prim : Type :=
 | PTuple | PItem0 | PItem1 | PMk
 | PSingleton | PWrapNeg | PAllNonneg | PComplement | PEmptyDims | PIsCollection | PMapCollection
 (* sibling functions of the layer: meaning = the hand-written function of Weighted.v *)
-| PFilled | PValued | PMap | PMapBoth | PWsum | PSumM | PGetDim | PWsumDim | PView | PWAbs.
+| PFilled | PValued | PMap | PMapBoth | PWsum | PSumM | PGetDim | PWsumDim | PView | PWAbs | PSumDimU | PStd
+(* python arithmetic on tensors / WeightedTensors (dispatch to the dunder methods), mapping lookup *)
+| PAdd | PDiv | PFloat | PGetItem.
 
 Inductive sx : Type :=
 | XVar (x : string)
 | XNone
 | XInt (z : Z)
 | XBool (b : bool)
+| XStr (s : string)
+| XQ (q : Q)                         (* a float literal / constant, read as the decimal it is written as *)
 | XIte (c a b : sx)                  (* a if c else b — lazy *)
 | XCall (p : prim) (args : list sx).
 
@@ -178,6 +184,12 @@ Inductive std_outcome : Type :=
 Definition std_from_variance (tol : atom) (v : tensor atom) : std_outcome :=
   if existsb (fun x => alt x tol) (to_flat v) then StdRefused else StdSqrt v.
 
+Fixpoint lookup (x : string) (env : list (string * sval)) : option sval :=
+  match env with
+  | [] => None
+  | (y, v) :: r => if String.eqb x y then Some v else lookup x r
+  end.
+
 Definition apply_prim (op : atom -> atom -> atom) (p : prim) (args : list sval) : sres sval :=
   match p with
   | PValue => match args with [VWT t] => SOk (VTen (value t)) | _ => SStuck end
@@ -223,10 +235,42 @@ Definition apply_prim (op : atom -> atom -> atom) (p : prim) (args : list sval) 
       | [VTen v; VMask m; f] => match as_atom f with Some a => SOk (VTen (masked_fill v m a)) | None => SStuck end
       | _ => SStuck
       end
-  | PMul =>      (* weight * tensor ; python int * tensor *)
+  | PMul =>      (* weight * tensor ; python int * tensor ; int * WeightedTensor = WeightedTensor.__rmul__(int) ; WeightedTensor * x *)
       match args with
       | [VWgt w; VTen v] => SOk (VTen (weight_times w v))
       | [VInt z; VTen v] => SOk (VTen (tmap (amul (ofZ z)) v))
+      | [VInt z; VWT t] => of_res (rmap VWT (apply_operation t (OT (scalar0 (ofZ z))) amul true))
+      | [VWT t; VTen v] => of_res (rmap VWT (apply_operation t (OT v) amul false))
+      | [VWT t; VWT u] => of_res (rmap VWT (apply_operation t (OW u) amul false))
+      | _ => SStuck
+      end
+  | PAdd =>      (* WeightedTensor.__add__ ; torch addition with broadcasting *)
+      match args with
+      | [VWT t; VTen v] => of_res (rmap VWT (apply_operation t (OT v) aadd false))
+      | [VWT t; VWT u] => of_res (rmap VWT (apply_operation t (OW u) aadd false))
+      | [VTen a; VTen b] => of_res (rmap VTen (tbin aadd a b))
+      | _ => SStuck
+      end
+  | PDiv => match args with [VTen a; VTen b] => of_res (rmap VTen (tbin adiv a b)) | _ => SStuck end
+  | PFloat => match args with [VWgt n] => SOk (VTen (tmap ofN n)) | [VTen v] => SOk (VTen v) | _ => SStuck end
+  | PGetItem => match args with [VDict l; VStr k] => match lookup k l with Some v => SOk v | None => SExc "KeyError" end | _ => SStuck end
+  | PSumDimU =>      (* _utils.sum_dim(x, fill_value=, dim=, but_dim=) *)
+      match args with
+      | [x; f; dim; but_dim] =>
+          match as_atom f, dimspec_of dim but_dim, x with
+          | Some fill, Some d, VWT t => of_res (rmap VTen (sum_dim fill d (OW t)))
+          | Some fill, Some d, VTen v => of_res (rmap VTen (sum_dim fill d (OT v)))
+          | _, _, _ => SStuck
+          end
+      | _ => SStuck
+      end
+  | PStd =>          (* compute_std_from_variance(variance, varname=..., tol=...) *)
+      match args with
+      | [VTen v; t] =>
+          match as_atom t with
+          | Some tol => match std_from_variance tol v with StdRefused => SExc "LeaspyConvergenceError" | StdSqrt r => SOk (VSqrtOf r) end
+          | None => SStuck
+          end
       | _ => SStuck
       end
   | PAbs => match args with [VTen v] => SOk (VTen (tmap aabs v)) | _ => SStuck end
@@ -329,18 +373,14 @@ Definition apply_prim (op : atom -> atom -> atom) (p : prim) (args : list sval) 
 
 (* ------------------------------------------------------------------ evaluation *)
 
-Fixpoint lookup (x : string) (env : list (string * sval)) : option sval :=
-  match env with
-  | [] => None
-  | (y, v) :: r => if String.eqb x y then Some v else lookup x r
-  end.
-
 Fixpoint eval_sx (op : atom -> atom -> atom) (env : list (string * sval)) (e : sx) {struct e} : sres sval :=
   match e with
   | XVar x => match lookup x env with Some v => SOk v | None => SStuck end
   | XNone => SOk VNone
   | XInt z => SOk (VInt z)
   | XBool b => SOk (VBool b)
+  | XStr s => SOk (VStr s)
+  | XQ q => SOk (VAtom (Fin q))
   | XIte c a b =>
       match eval_sx op env c with
       | SOk (VBool true) => eval_sx op env a
@@ -475,6 +515,7 @@ Definition run_with (I : impl) (env : nat -> res operand) (e : expr) (q : query)
 
 (* ------------------------------------------------------------------ signatures: defaults and the dunder dispatch *)
 
+
 Inductive default : Type :=
 | DNone
 | DBool (b : bool)
@@ -566,4 +607,6 @@ Definition model_signatures : list (string * list string) :=
    ("wsum_dim_return_sum_of_weights_only", ["x"; "*"; "fill_value"; "dim"; "but_dim"; "**kws"]);
    ("unsqueeze_right", ["t"; "*"; "ndim"]);
    ("compute_std_from_variance", ["variance"; "varname"; "tol"]);
+   ("scalar_noise_std_update", ["cls"; "*"; "state"; "y_x_model"; "model_x_model"]);
+   ("diagonal_noise_std_update", ["cls"; "*"; "state"; "y_x_model"; "model_x_model"]);
    ("factory", ["x"; "*args"; "**kws"])]%string.
